@@ -7,6 +7,7 @@ import (
 	"time"
 
 	sdk "github.com/cosmos/cosmos-sdk/types"
+	sdkerrors "github.com/cosmos/cosmos-sdk/types/errors"
 	govTypes "github.com/cosmos/cosmos-sdk/x/gov/types"
 	stakingTypes "github.com/cosmos/cosmos-sdk/x/staking/types"
 )
@@ -58,7 +59,11 @@ func (scp ShieldClaimProposal) ProposalType() string {
 
 // ValidateBasic runs basic stateless validity checks.
 func (scp ShieldClaimProposal) ValidateBasic() error {
-	// TODO
+	// The loss is an amount of coins: a negative (or otherwise malformed) loss would
+	// be added to the purchase's shield and subtracted from the locked collateral.
+	if !scp.Loss.IsValid() {
+		return sdkerrors.Wrapf(sdkerrors.ErrInvalidCoins, "loss: %s", scp.Loss)
+	}
 	return nil
 }
 
